@@ -560,9 +560,10 @@ def main(mod, argv):
         "wall_s": round(wall_s, 2),
         "violations": len(new_viol),
     }
-    os.makedirs(os.path.join(VERIF, "evidence"), exist_ok=True)
-    with open(os.path.join(VERIF, "evidence", f"{prop}.json"), "w") as f:
-        json.dump(ev, f, indent=1, default=str)
+    if not os.environ.get("VERIF_NO_EVIDENCE"):  # partial runs of tools/ do not overwrite evidence
+        os.makedirs(os.path.join(VERIF, "evidence"), exist_ok=True)
+        with open(os.path.join(VERIF, "evidence", f"{prop}.json"), "w") as f:
+            json.dump(ev, f, indent=1, default=str)
     print(
         f"{prop} tier={tier} seed={seed} runs={len(results)} distinct_nontrivial={len(digests)} "
         f"faults={faults} wall={wall_s:.1f}s sim={sim_s:.0f}s selftest={det}"
